@@ -177,7 +177,7 @@ def rule_corner_cell(prog, C, rule, classes=None):
     return n
 
 
-def rule_sibling_fill(prog, C):
+def rule_sibling_fill(prog, C, rule="R-C03-b"):
     """R-C03-b: every fill branch of xfunc_X stores the same reducer as ffunc_X's cell, per region."""
     n = 0
     for name in SHARED:
@@ -194,20 +194,20 @@ def rule_sibling_fill(prog, C):
                         branch = "no coordinates" if not co else ("one column (bincount)" if nd == 1 else "several columns (bins)")
                         where = "xfuncs:xfunc_%s.fill" % name
                         if mf.npos != mx.npos:
-                            C.add("R-C03-b", VIOLATED, where, "%s: number of regions, weights %s" % (name, w), "index cube keeps %s regions, array cube %s" % (mf.npos, mx.npos))
+                            C.add(rule, VIOLATED, where, "%s: number of regions, weights %s" % (name, w), "index cube keeps %s regions, array cube %s" % (mf.npos, mx.npos))
                             continue
                         for p in range(mf.npos or 0):
                             cons = "%s region %d, weights %s, %s, %s" % (name, p, w, "ignore" if ign else "propagate", branch)
                             fcells = mf.cell.get(p, [])
                             xcells = mx.cell.get(p, [])
                             if not fcells or not xcells:
-                                C.add("R-C03-b", UNDECIDED, where, cons, "fill expression not found on one side")
+                                C.add(rule, UNDECIDED, where, cons, "fill expression not found on one side")
                                 continue
                             ref = scalarise(erase_R(fcells[0]), cf)
                             for xc in xcells:
                                 n += 1
                                 if has_unknown(xc) or has_unknown(ref):
-                                    C.add("R-C03-b", UNDECIDED, where, cons, "not normalised: %s" % (unknown_text(xc) or unknown_text(ref)))
+                                    C.add(rule, UNDECIDED, where, cons, "not normalised: %s" % (unknown_text(xc) or unknown_text(ref)))
                                     continue
                                 got = scalarise(erase_R(xc), cx)
                                 wit = None
@@ -217,7 +217,7 @@ def rule_sibling_fill(prog, C):
                                         wit = {"inputs": "2 fact columns + weights, propagate, nothing missing: xcube all-NaN, ccube [[2,3],[6,7]]"}
                                     if name == "count" and w == "scalar" and not co:
                                         wit = {"inputs": "xcube([]).count(weights=2.0, N=5) -> 2 vs ccube([]) -> 10"}
-                                C.ok(got == ref, "R-C03-b", where, cons, show_lin(got),
+                                C.ok(got == ref, rule, where, cons, show_lin(got),
                                      "array cube stores %s where the index cube stores %s" % (show_lin(got), show_lin(ref)), wit)
     return n
 
@@ -480,3 +480,72 @@ def _terms(ev):
                     for y in x:
                         if isinstance(y, T):
                             yield y
+
+
+# ------------------------------------------------------------------------------ near-zero tolerance
+def _fold_float(t):
+    """Constant value of a tolerance expression, or None."""
+    if t.op == "const" and isinstance(t.args[1], (int, float)) and not isinstance(t.args[1], bool):
+        return float(t.args[1])
+    if t.op == "attr" and t.args[1] in ("eps", "epsilon"):
+        b = t.args[0]
+        if b.op == "call" and (tm.callee_name(b) or "") == "numpy.finfo":
+            a = b.args[1][0] if b.args[1] else None
+            d = tm.dotted(a) if a is not None else "builtins.float"
+            if d in ("builtins.float", "numpy.float64", "numpy.double", "numpy.float_"):
+                return 2.220446049250313e-16
+            if d in ("numpy.float32", "numpy.single"):
+                return 1.1920929e-07
+        if tm.dotted(b) in ("sys.float_info",):
+            return 2.220446049250313e-16
+    if t.op == "binop" and t.args[0] in ("*", "/", "+", "-", "**"):
+        a, b = _fold_float(t.args[1]), _fold_float(t.args[2])
+        if a is None or b is None:
+            return None
+        try:
+            return {"*": a * b, "/": a / b, "+": a + b, "-": a - b, "**": a ** b}[t.args[0]]
+        except (ZeroDivisionError, OverflowError):
+            return None
+    return None
+
+
+def rule_zero_snap_tolerance(prog, C, rule):
+    """Every `numpy.isclose(<counter>, 0)` that decides 'this differenced value is zero' uses NumPy's default
+    absolute tolerance (1e-8), as the adjust_zeros docstring documents - not a narrower one."""
+    from .symex import Interp
+    n = 0
+    for module, quals in (("ffuncs", ("ffunc.adjust_zeros", "ffunc_count.reduce")), ("xfuncs", ("xfunc.adjust_zeros", "xfunc_count.reduce"))):
+        for q in quals:
+            try:
+                fi = prog.func(module, q)
+            except KeyError:
+                C.add(rule, UNDECIDED, "%s:%s" % (module, q), "near-zero test", "function not found (anchor vanished)")
+                continue
+            I = Interp(prog, hints.param_types_for(module), hints.FIELD_TYPES, inline=False)
+            I.run(fi)
+            calls = [e for e in I.events if e.kind == "call" and e["name"] in ("numpy.isclose", "numpy.allclose")]
+            for e in calls:
+                n += 1
+                args = e["args"]
+                where = "%s@%d" % (fi.fq, e.line)
+                cons = "%s: near-zero test %s" % (q, e.src()[:50])
+                if len(args) < 2 or not tm.is_const(args[1], 0):
+                    C.add(rule, UNDECIDED, where, cons, "not a comparison with the constant 0")
+                    continue
+                kw = dict(e["kwargs"])
+                atol = kw.get("atol", args[3] if len(args) > 3 else None)
+                if atol is None:
+                    C.add(rule, PROVED, where, cons, "NumPy's default absolute tolerance (1e-8), as documented")
+                    continue
+                v = _fold_float(atol)
+                if v is None:
+                    C.add(rule, UNDECIDED, where, cons, "absolute tolerance %s is not a constant the analysis can evaluate" % tm.show(atol)[:40])
+                elif v < 1e-8:
+                    C.add(rule, VIOLATED, where, cons,
+                          "absolute tolerance %.3g is narrower than the documented isclose(arr, 0) (1e-8): the rounding residue of marginal differencing grows with the magnitude of the totals (about 1e-13 for weight totals near 1e3), so an empty common cell is no longer snapped to zero and is reported valid with a garbage mean - while the same category stored explicitly is reported missing" % v,
+                          {"inputs": "ccube.mean with float weights over a few thousand rows, a dimension re-encoded so that its common value never occurs"})
+                elif v == 1e-8:
+                    C.add(rule, PROVED, where, cons, "absolute tolerance 1e-8 (the default, spelled out)")
+                else:
+                    C.add(rule, UNDECIDED, where, cons, "absolute tolerance %.3g is wider than documented; genuine small totals could be zeroed" % v)
+    return n
